@@ -28,6 +28,7 @@ for pid in ids:
                            + ("; Apalache, real constants, all inputs, for the linear kernels and the implementation-shaped transcription (L1')" if P.get("apalache") else "")
                            + ("; TLAPS proofs of the underlying lemmas for all integers (thorough tier)" if P.get("tlaps") else "")
                            + ("; TLC-generated behaviours of the scaled machine replayed in the real code (L2)" if P.get("l2") else "")
+                           + ("; the system machine (spec/Hifitime.tla): exhaustive on its scaled instance (MC_Hifitime) and TLC-generated chains of calls across the types replayed in the real code (Gen_Hifitime)" if P.get("l2sys") else "")
                            + "; TLC trace validation of recorded calls of the real code at the real constants (L3, the alarm source)"),
     })
 na = [{"property_id": p, "reason": NOT_APPLICABLE.get(p, "check not built yet (work in progress; DESIGN.md section 11)")} for p in ids if p not in PROPS]
